@@ -45,7 +45,9 @@ PROPS = {
     "C04": dict(theorems=["C04_parse_absent_iff", "C04_falsy_values_are_present", "C04_validate_absent_examples", "C04_absent_default", "C04_absent_required", "C04_absent_optional", "C04_slice_absent_required", "C04_slice_absent_optional", "C04_ptr_absent_notnil", "C04_ptr_absent_optional", "C04_engine_computes_semantics"], cone=ENGINE_CONE + ["Proofs/AbsentP.v"], rule=ENGINE_RULE,
                 families=[eng("engine", "C04", 1200, 20000, ["nil", "issues", "dest", "calls", "panic"]),
                           # Required / Optional / Default / Catch called in every order on one schema
-                          dict(name="builder", family="builder", profile="default", quick=900, thorough=15000, shard=150, tags=["nil", "issues", "dest", "panic"])]),
+                          dict(name="builder", family="builder", profile="default", quick=900, thorough=15000, shard=150, tags=["nil", "issues", "dest", "panic"]),
+                          # what a front end delivers for a key that is there: a list of one blank entry is a list, a blank scalar is absent
+                          dict(name="fe", family="fe", profile="fe", quick=700, thorough=10000, tags=["nil", "issues", "dest", "panic"])]),
     "C05": dict(theorems=["C05_catch_own_node", "C05_catch_is_local", "C05_elements_are_independent", "C05_engine_computes_semantics"], cone=ENGINE_CONE + ["Proofs/Indep.v", "Proofs/CatchP.v"], rule=ENGINE_RULE,
                 families=[eng("engine", "C05", 1200, 20000, ["nil", "issues", "dest", "panic"])]),
     "C06": dict(theorems=["C06_try_provider_never_panics", "C06_lookup_never_panics", "C06_field_name_never_panics", "C06_parse_struct_never_panics",
@@ -81,7 +83,9 @@ PROPS = {
     "C12": dict(theorems=["C12_engine_computes_semantics", "C12_test_receives_the_tested_value", "C12_pts_prefix_in_order", "C12_pts_skipped_when_an_issue_exists", "C12_preprocess_error_skips_schema", "C12_preprocess_type_mismatch_skips_schema", "C12_ctx_values_are_this_calls", "C12_ctx_get_is_the_calls_last_option", "C12_ctx_last_call_wins", "C12_ctx_other_keys_nil"], cone=ENGINE_CONE + ["Proofs/ExactP.v", "Model/Objects.v", "Proofs/ObjectsP.v", "Model/Options.v", "Proofs/OptionsP.v"], rule=ENGINE_RULE,
                 families=[eng("engine", "C12", 1200, 20000, ["calls", "args", "ctx", "haserr", "panic"]),
                           # callbacks after arbitrary earlier calls (undecodable request bodies included): still their own node, still this call's context
-                          dict(name="history", family="history", profile="C07", quick=500, thorough=6000, tags=["calls", "args", "ctx", "panic"])]),
+                          dict(name="history", family="history", profile="C07", quick=500, thorough=6000, tags=["calls", "args", "ctx", "panic"]),
+                          # the callbacks a derived schema runs are its own, in declaration order, whatever was derived from the same base before or after
+                          sat("helpers", "helpers", 600, 8000, ["tests", "transforms"], shard=300)]),
     "C11": dict(theorems=["C11_catalogue_ok", "C11_custom_described", "C11_legacy_custom_refuted", "C11_no_placeholder_left", "C11_precedence_test", "C11_precedence_exec",
                           "C11_precedence_global", "C11_i18n_uses_context_language", "C11_i18n_falls_back_to_default", "C11_call_formatter_is_last_option"],
                 cone=["Model/Fmt.v", "Proofs/FmtP.v", "Gen/Tables.v", "Model/Options.v", "Proofs/OptionsP.v"],
